@@ -22,7 +22,7 @@ from typing import List, Optional, Set
 from ..cfg import CFG, Node
 from ..model import FuncInfo, Repo, dotted, load_repo
 from ..report import AnalysisError, Report
-from ..util import body_walk, cmp_oriented, kwarg, src, walk_no_nested
+from ..util import hoist_calls, body_walk, cmp_oriented, kwarg, src, walk_no_nested
 
 LOADER = "fickling.loader.load"
 UNPICKLERS = {
@@ -72,6 +72,9 @@ def check_loader(repo: Repo, rep: Report):
     if not params:
         raise AnalysisError("loader.load has no parameters")
     stream = params[0]
+    # the parse and the analysis are followed by the name they are bound to: give them one where the source nests the calls
+    _f0 = f
+    f = hoist_calls(f, lambda c: (repo.resolve_expr(_f0.module, c.func, set(params)) or "") in ("fickling.fickle.Pickled.load", "fickling.fickle.StackedPickle.load", "fickling.analysis.check_safety"))
     g = CFG(f.node)
     dom = g.dominators()
     file = f.file
